@@ -1,6 +1,7 @@
 import MosnVerif.Lemmas.WeightedCluster
 import MosnVerif.Lemmas.EDF
 import MosnVerif.Lemmas.EdfHeap
+import MosnVerif.Lemmas.LB
 /-!
 # C06 — configured weights are honoured exactly (property theorems only)
 -/
@@ -164,6 +165,18 @@ theorem heap_push (h : Heap EDF.Entry) (e : EDF.Entry) (hord : Ordered EDF.less 
     Ordered EDF.less g.elements g.size ∧ g.size = h.size + 1 ∧ SameSet (upd h.elements h.size e) g.elements (h.size + 1) :=
   push_spec less_weakOrder h e hord
 
+/-- **heap_scheduler_refines**: the scheduler of `edf.go` on top of the array heap of `edfheap.go` (`Add` = `Push`,
+`NextAndPush` = `Peek`, update in place, `Fix(0)`) serves, for every number of hosts, every positive weight function
+(re-evaluated at every pick) and every number of picks, exactly the sequence of the list scheduler
+`Model/EDF.lean` without hints, about which the invariant and the window bound are proved. -/
+theorem heap_scheduler_refines (wf : Nat → Rat) (hwf : ∀ k, 0 < wf k) (n k : Nat) :
+    ((HSched.initWith wf n).run wf k).1 = ((EDF.initWith wf n).run wf (List.replicate k none)).1 := by
+  obtain ⟨R, hQ⟩ := init_rel wf hwf n
+  exact run_refines wf hwf k _ _ R (EDF.initWith_facts wf hwf n).1 hQ
+
+example : ((HSched.initWith (EDF.wrrWeight [1, 2, 3]) 3).run (EDF.wrrWeight [1, 2, 3]) 6).1 = [2, 1, 2, 0, 1, 2] := by
+  decide +kernel
+
 -- non-vacuity: three entries pushed in descending deadline order end with the earliest at the root
 private def e3 (d : Rat) (q : Int) : EDF.Entry := { item := q.toNat, deadline := d, weight := 1, queued := q }
 example : (peek (push EDF.less (push EDF.less (push EDF.less ⟨fun _ => default, 0⟩ (e3 3 1)) (e3 2 2)) (e3 1 3))).item = 3 := by
@@ -173,5 +186,72 @@ example : (peek (fix EDF.less { (push EDF.less (push EDF.less (push EDF.less ⟨
   decide +kernel
 
 end Heap
+
+/-! ## the weighted round-robin *balancer* (`WRRLoadBalancer.ChooseHost`) over healthy hosts -/
+section WRRBalancer
+open MosnVerif.Model MosnVerif.Model.EDF MosnVerif.Model.LB
+
+/-- **wrr_lookup_window_bound**: for every host set with all hosts healthy and not all configured weights equal (then
+`newWRRLoadBalancer` builds the EDF scheduler), every round-robin start, every warm-up, every number of earlier lookups
+and every window of consecutive lookups, the hosts returned by `ChooseHost` satisfy
+`nᵢ/wᵢ − nⱼ/wⱼ ≤ 1/wᵢ + 1/wⱼ` (with `i`, `j` swapped: the absolute value) for the effective weights
+`wₖ = fixHostWeight(weightₖ) ∈ 1..128`. -/
+theorem wrr_lookup_window_bound (hs : Hosts) (hall : ∀ i, i < hs.length → hAt hs i = true)
+    (hneq : weightsEqual hs = false) (rr0 : Nat) (pre before window : List (Option Nat)) (i j : Nat)
+    (hi : i < hs.length) (hj : j < hs.length) :
+    let st0 := newState .wrr hs rr0 pre
+    let st1 := (wrrServe hs st0 before).2
+    let served := (wrrServe hs st1 window).1
+    ((served.count (some i) : Nat) : Rat) / wrrWf hs i - ((served.count (some j) : Nat) : Rat) / wrrWf hs j
+      ≤ 1 / wrrWf hs i + 1 / wrrWf hs j := by
+  intro st0 st1 served
+  have h2 : 2 ≤ hs.length := by
+    match hs, hneq with
+    | [], h => simp [weightsEqual] at h
+    | [_], h => simp [weightsEqual] at h
+    | _ :: _ :: _, _ => simp
+  have hwf : ∀ k, 0 < wrrWf hs k := fun k => by
+    unfold wrrWf fixedWeight
+    exact Rat.intCast_pos.mpr (by have := (fixHostWeight_range ((statAt hs (·.weight) k : Nat) : Int)).1; omega)
+  -- the constructed scheduler
+  have hs0 : st0.sched = some (refresh (wrrWf hs) hs.length pre) := by
+    simp only [st0, newState, hasEdf, hneq, Bool.true_and, Bool.not_false, Bool.and_true, policyWf]
+    have : decide (hs.length > 1) = true := by simp; omega
+    simp [this]
+  obtain ⟨f1, f2, f3⟩ := refresh_facts (wrrWf hs) hwf hs.length pre
+  have e1 := wrrServe_eq_run hs hall h2 hwf before st0 _ hs0 f3 f1
+  obtain ⟨r1, r2, r3, _, _⟩ := run_facts (wrrWf hs) hwf before _ f1 f2
+  have hst1 : st1.sched = some ((refresh (wrrWf hs) hs.length pre).run (wrrWf hs) before).2 := by
+    simp only [st1, e1]
+  have e2 := wrrServe_eq_run hs hall h2 hwf window st1 _ hst1 (r3.trans f3) r1
+  have hserved : served = ((((refresh (wrrWf hs) hs.length pre).run (wrrWf hs) before).2.run (wrrWf hs) window).1).map some := by
+    simp only [served, e2]
+  have hcount : ∀ k, served.count (some k) =
+      ((((refresh (wrrWf hs) hs.length pre).run (wrrWf hs) before).2.run (wrrWf hs) window).1).count k := by
+    intro k; rw [hserved]
+    generalize (((refresh (wrrWf hs) hs.length pre).run (wrrWf hs) before).2.run (wrrWf hs) window).1 = l
+    induction l with
+    | nil => rfl
+    | cons x r ih => simp only [List.map_cons, List.count_cons, ih]; simp
+  rw [hcount i, hcount j]
+  obtain ⟨ei, hei, hii⟩ := mem_of_item_mem (l := ((refresh (wrrWf hs) hs.length pre).run (wrrWf hs) before).2.entries) (i := i)
+    (by rw [r3.trans f3]; simpa using hi)
+  obtain ⟨ej, hej, hjj⟩ := mem_of_item_mem (l := ((refresh (wrrWf hs) hs.length pre).run (wrrWf hs) before).2.entries) (i := j)
+    (by rw [r3.trans f3]; simpa using hj)
+  have := window_bound (wrrWf hs) hwf window _ r1 r2 hei hej
+  rw [hii, hjj] at this
+  exact this
+
+-- non-vacuity: three healthy hosts with weights 1, 3, 128
+example : weightsEqual ([⟨0, 1, true, 0, 0, 1⟩, ⟨1, 3, true, 0, 0, 1⟩, ⟨2, 128, true, 0, 0, 1⟩] : Hosts) = false ∧
+    ∀ i, i < 3 → hAt ([⟨0, 1, true, 0, 0, 1⟩, ⟨1, 3, true, 0, 0, 1⟩, ⟨2, 128, true, 0, 0, 1⟩] : Hosts) i = true := by
+  refine ⟨by decide, ?_⟩
+  intro i hi
+  match i, hi with
+  | 0, _ => decide
+  | 1, _ => decide
+  | 2, _ => decide
+
+end WRRBalancer
 
 end MosnVerif.Props.C06
